@@ -279,6 +279,35 @@ fn check_ranges(m: &mut Mon, lim: u32, seed: u64) {
                 m.chk("range.sub_end", t, r.sub_end(o.into()), mk(a, b - o));
             }
             m.chk("range.add_end", t, r.add_end(o.into()), mk(a, b + o));
+            // documented panics (in every build profile): an endpoint that would pass the other one
+            if a + o > b {
+                let g = guard(move || r.add_start(o.into()));
+                m.queries += 1;
+                if g.is_ok() {
+                    m.bad("range.add_start past the end does not panic", t, format!("{} {} {} got {:?}", a, b, o, g.ok()));
+                }
+            }
+            if o <= b && b - o < a {
+                let g = guard(move || r.sub_end(o.into()));
+                m.queries += 1;
+                if g.is_ok() {
+                    m.bad("range.sub_end before the start does not panic", t, format!("{} {} {} got {:?}", a, b, o, g.ok()));
+                }
+            }
+            if o > a {
+                let g = guard(move || r.sub_start(o.into()));
+                m.queries += 1;
+                if g.is_ok() {
+                    m.bad("range.sub_start below zero does not panic", t, format!("{} {} {} got {:?}", a, b, o, g.ok()));
+                }
+            }
+            if o < a {
+                let g = guard(move || TextRange::new(a.into(), o.into()));
+                m.queries += 1;
+                if g.is_ok() {
+                    m.bad("TextRange::new with end < start does not panic", t, format!("{} {} got {:?}", a, o, g.ok()));
+                }
+            }
         }
         for &(c, d) in &all {
             let s = mk(c, d);
@@ -363,6 +392,13 @@ fn check_ranges(m: &mut Mon, lim: u32, seed: u64) {
             Err(p) => {
                 m.queries += 1;
                 m.bad("checked operation panicked/edge", t, format!("{:?} {} {}", lo2, o, p));
+            }
+        }
+        if (a as u64) + (o as u64) + 1 > top as u64 {
+            let g = guard(move || TextRange::at(a.into(), (o + 1).into()));
+            m.queries += 1;
+            if g.is_ok() {
+                m.bad("TextRange::at past 2^32 does not panic", t, format!("{} {} got {:?}", a, o + 1, g.ok()));
             }
         }
         // the unchecked operators must panic instead of wrapping
